@@ -37,6 +37,8 @@ struct Node {
   int nrDying = 0;
   int pref = 0;  // bit0 trusted prefer, bit1 trusted avoid, bit2 user prefer, bit3 user avoid
   int oomGroup = 0;
+  bool noIoStat = false;  // io.stat unreadable on this tick (the cgroup itself stays)
+  bool noPgscan = false;  // memory.stat carries no pgscan line on this tick
 };
 struct Sys {
   long long memTotalKb = 16777216, memFreeKb = 4194304, swapTotalKb = 2097152, swapUsedKb = 524288;
@@ -71,6 +73,7 @@ void writeNode(const Node& n) {
   world::setFile(n.rel, "memory.swap.current", std::to_string(n.swapCur) + "\n");
   world::setFile(n.rel, "memory.swap.max", v2s(n.swapMax) + "\n");
   std::vector<std::pair<std::string, long long>> st = {{"anon", n.anon}, {"file", n.file}, {"kernel_stack", 7}, {"shmem", n.shmem}, {"inactive_anon", 1}, {"active_anon", 2}, {"inactive_file", 3}, {"active_file", 4}, {"pgscan", n.pgscan}, {"pgsteal", 5}};
+  if (n.noPgscan) st.erase(st.begin() + 8);
   if (n.statOrder) {
     std::reverse(st.begin(), st.end());
     st.insert(st.begin() + 3, {"future_key_v7", 123});
@@ -92,7 +95,10 @@ void writeNode(const Node& n) {
   std::string io;
   for (auto& d : n.io)
     io += d.id + " rbytes=" + std::to_string(d.rb) + " wbytes=" + std::to_string(d.wb) + " rios=" + std::to_string(d.ri) + " wios=" + std::to_string(d.wi) + " dbytes=" + std::to_string(d.db) + " dios=" + std::to_string(d.di) + "\n";
-  world::setFile(n.rel, "io.stat", io);
+  if (n.noIoStat)
+    world::rmFile(n.rel, "io.stat");
+  else
+    world::setFile(n.rel, "io.stat", io);
   world::setFile(n.rel, "cgroup.stat", "nr_descendants 1\nnr_dying_descendants " + std::to_string(n.nrDying) + "\n");
   world::setFile(n.rel, "memory.oom.group", std::to_string(n.oomGroup) + "\n");
   const char* xs[] = {"trusted.oomd_prefer", "trusted.oomd_avoid", "user.oomd_prefer", "user.oomd_avoid"};
@@ -333,10 +339,10 @@ struct C15 : vr::Driver {
     {
       const long long us[] = {0, 100 << 20, 1LL << 33};
       for (int h = 0; h < 81; h++)
-        for (int variant = 0; variant < 3; variant++) {
+        for (int variant = 0; variant < 4; variant++) {
           if (!th && variant && (h % 4)) continue;
           Scenario s;
-          s.desc = "temporal history usage/pgscan/io letters " + std::to_string(h) + (variant == 0 ? "" : variant == 1 ? " with s/a re-created before tick 3" : " with s/a absent at tick 3 and back at tick 4");
+          s.desc = "temporal history usage/pgscan/io letters " + std::to_string(h) + (variant == 0 ? "" : variant == 1 ? " with s/a re-created before tick 3" : variant == 2 ? " with s/a absent at tick 3 and back at tick 4" : " with s/a's io.stat and pgscan line unreadable at tick 3");
           int x = h;
           long long pg = 0, iob = 0;
           for (int k = 0; k < 4; k++) {
@@ -354,6 +360,7 @@ struct C15 : vr::Driver {
               a.exists = false;
               node(t, "s/a/x").exists = false;
             }
+            if (variant == 3 && k == 2) a.noIoStat = a.noPgscan = true;
             s.ticks.push_back(t);
           }
           s.mutateRel = "s/b";
@@ -524,7 +531,10 @@ struct C15 : vr::Driver {
         expectNum("anon_usage", n.anon, 0);
         expectNum("file_usage", n.file, 0);
         expectNum("shmem_usage", n.shmem, 0);
-        expectNum("pg_scan_cumulative", n.pgscan, 0);
+        if (n.noPgscan)
+          expectText("pg_scan_cumulative", "_");
+        else
+          expectNum("pg_scan_cumulative", n.pgscan, 0);
         expectNum("nr_dying_descendants", n.nrDying, 0);
         expectNum("oom_group", n.oomGroup, 0);
         {
@@ -537,6 +547,7 @@ struct C15 : vr::Driver {
         }
         {
           std::map<std::string, long long> ms = {{"anon", n.anon}, {"file", n.file}, {"kernel_stack", 7}, {"shmem", n.shmem}, {"inactive_anon", 1}, {"active_anon", 2}, {"inactive_file", 3}, {"active_file", 4}, {"pgscan", n.pgscan}, {"pgsteal", 5}};
+          if (n.noPgscan) ms.erase("pgscan");
           if (n.statOrder) {
             ms["future_key_v7"] = 123;
             ms["zz_unknown"] = 0;
@@ -561,7 +572,10 @@ struct C15 : vr::Driver {
         {
           std::string j;
           for (auto& d : n.io) j += d.id + ":" + std::to_string(d.rb) + ":" + std::to_string(d.wb) + ":" + std::to_string(d.ri) + ":" + std::to_string(d.wi) + ":" + std::to_string(d.db) + ":" + std::to_string(d.di) + ",";
-          expectText("io_stat", j);
+          if (n.noIoStat)
+            expectText("io_stat", "_");
+          else
+            expectText("io_stat", j);
         }
         {
           std::vector<std::string> kids;
@@ -598,7 +612,10 @@ struct C15 : vr::Driver {
           if (!zeroLevel) expectNum("effective_swap_util_pct", util, 1e-8L);
         }
         ld cost = ioCost(n, sc.customCoeffs);
-        expectNum("io_cost_cumulative", cost, fabsl(cost) * 1e-7L + 1e-9L);
+        if (n.noIoStat)
+          expectText("io_cost_cumulative", "_");
+        else
+          expectNum("io_cost_cumulative", cost, fabsl(cost) * 1e-7L + 1e-9L);
         // temporal
         ld avg = (h.hasAvg ? h.avg : 0) * 0.75L + (ld)n.cur / 4;
         expectNum("average_usage", avg, (ld)tickNo + 1);
@@ -606,17 +623,21 @@ struct C15 : vr::Driver {
           ld gotAvg = strtold(s.at("average_usage").c_str(), nullptr);
           if (gotAvg > 1000) expectNum("memory_growth", (ld)n.cur / gotAvg, 1e-6L * ((ld)n.cur / gotAvg) + 1e-9L);
         }
-        expectNum("io_cost_rate", h.hasIo ? cost - h.ioCost : 0, (fabsl(cost) + fabsl(h.ioCost)) * 1e-7L + 1e-9L);
-        if (h.hasPg)
+        // a rate is the increase since the PREVIOUS tick: a tick without a sample leaves no previous sample behind
+        if (n.noIoStat)
+          expectText("io_cost_rate", "_");
+        else
+          expectNum("io_cost_rate", h.hasIo ? cost - h.ioCost : 0, (fabsl(cost) + fabsl(h.ioCost)) * 1e-7L + 1e-9L);
+        if (h.hasPg && !n.noPgscan)
           expectNum("pg_scan_rate", (ld)n.pgscan - (ld)h.pg, 0);
         else
           expectText("pg_scan_rate", "_");
         if (s.at("average_usage") != "_") h.avg = strtold(s.at("average_usage").c_str(), nullptr);  // follow the integer recurrence
         h.hasAvg = true;
         h.ioCost = cost;
-        h.hasIo = true;
+        h.hasIo = !n.noIoStat;
         h.pg = n.pgscan;
-        h.hasPg = true;
+        h.hasPg = !n.noPgscan;
         h.id = s.at("id");
       }
       // identity change on re-creation
